@@ -122,12 +122,26 @@ def step (s : Unit) (j : Json) : Except String (Unit × Json × List Fired) := d
       let okElig := ires.all fun v => all.any fun (i, b, a) => i == v && b && a
       if !(ires.length = size ∧ distinct ires ∧ okElig) then
         fired := [{ name := "committee_not_exact_distinct_eligible", detail := out }]
-    if elig.length < size then
+    -- a panic is a panic, whatever its text
+    let panicS := if ierr.startsWith "panic" then ierr else "panic"
+    -- the stakes are converted to uint64 weights while the eligible validators are collected, before their number is looked at
+    if elig.any (fun (_, w) => w ≥ 18446744073709551616) then
+      if ierr == "" then
+        fired := fired ++ [{ name := "committee_drawn_where_the_sampler_must_refuse", detail := mkObj [("res", jl (ires.map jn)),
+          ("totalWeight", jn ((elig.map (·.2)).foldl (· + ·) 0))] }]
+      pure (s, mkObj [("err", js panicS), ("res", jl [])], fired)
+    else if elig.length < size then
       pure (s, mkObj [("err", js Generated.Err.oracle_ErrInsufficientValidators), ("res", jl [])], fired)
     else
       let f ← drawFn j (size * tries)
       match chooseSomeMaxWeight (elig.map (·.2)) size tries f with
-      | none => pure (s, mkObj [("err", js "panic"), ("res", jl [])], fired)
+      | none =>
+        -- weights that do not fit 64 bits (one of them, or their sum): the sampler refuses; a committee drawn anyway was drawn
+        -- against other weights than the validators' stakes
+        if ierr == "" then
+          fired := fired ++ [{ name := "committee_drawn_where_the_sampler_must_refuse", detail := mkObj [("res", jl (ires.map jn)),
+            ("totalWeight", jn ((elig.map (·.2)).foldl (· + ·) 0))] }]
+        pure (s, mkObj [("err", js panicS), ("res", jl [])], fired)
       | some l => pure (s, mkObj [("err", js ""), ("res", jl (l.map fun i => jn ((elig.getD i (0, 0)).1)))], fired)
   | "randomMembers" =>
     -- env: members [id, active, hasDE] in store iteration order
